@@ -50,5 +50,15 @@ PROPS = {
         "exhaustive_note": "all sequences of <= 4 (quick) / 5 (thorough) hashers over 5 answer kinds, 3 codes",
         "assumptions": ["the error contract at message level (skip vs close) is proved about Incoming.process_message (Props_C16) and exercised by the incoming engine"],
     },
+    "C16": {
+        "engines": [{"name": "incoming", "n": {"quick": 3000, "thorough": 100000}, "profiles": ["debug"]}],
+        "rule": "engine incoming: process_message on generated Message values (honest blocks, wrong data, unknown / scripted / oversize hash codes, "
+                "unparsable prefixes, explicit v0, duplicates; valid / invalid / trailing-bytes presence CIDs with contradictory types; wantlists absent / "
+                "empty / full / with entries) under capacities 64/48/32 and 0-2 scripted hashers (ok / custom / fatal / invalid-size / unknown) in front of the "
+                "built-in table; each message is also processed with its skippable blocks removed. Non-trivial = the message has payload or presences.",
+        "assumptions": ["32 <= S <= 255", "sha_respecting table (a hasher registered for code 0x12 returns sha2-256 multihashes)",
+                        "stream level (a bad frame ends only its stream; SelectAll of independent streams) is structural in lib.rs: each inbound stream is its own "
+                        "IncomingStream value; theorems about run_stream (Framed.v) cover the single stream, independence of streams is not exhibited by a model"],
+    },
 }
 NOT_CLAIMED = {}
